@@ -40,6 +40,8 @@ def run(R):
         r3(R)
     if R.want("C12.R4"):
         r4(R, tus)
+    if R.want("C12.R6"):
+        r6(R)
     if R.want("C12.R5"):
         # one 2D blob per connected component is the premise of "exactly one output peak per component": the dense labeller's
         # neighbour table (every already-visited neighbour linked, unconditionally, in every border region).  Shared with C11.R1.
@@ -449,3 +451,89 @@ def r4(R, tus):
     mk = [x for st, x in cfront.all_exprs(f.body) if x.k == "call" and x.name == "dset_makeunion"]
     R.check(len(mk) == 1 and [estr(a) for a in mk[0].a] == ["link", "p2", "((p1 + %s) + 1)" % n2], "C12.R4", CP, f.line, "bloboverlaps", "union(link, p2, p1 + n2 + 1)",
             "label spaces of the two frames overlap in the disjoint set")
+
+
+# --------------------------------------------------------------------------------------------------
+def r6(R):
+    """frame-to-frame merging pairs the labels of the current frame with those of 'the previous frame' kept in the labelimage object
+    (lastbl / lastres, swapped by mergelast).  That is the adjacent frame only if every labelimage object (one per threshold) is given
+    every frame: peaksearcher.peaksearch runs labelim.peaksearch(...) and labelim.mergelast() for each threshold of each frame, on
+    every path, and never leaves the loop over the thresholds early."""
+    PS = "ImageD11/peaksearcher.py"
+    R.rule("C12.R6", "peaksearcher.peaksearch: for every threshold of every frame, labims[threshold].peaksearch(...) and then .mergelast() run "
+                     "on every path; the loop over the thresholds has no break / return / continue that skips a label image (a skipped frame "
+                     "makes the next one merge with a frame that is not adjacent)")
+    m = pyfacts.module(R, PS)
+    fn = m.ifunc("peaksearch", depth=1)
+    loops = []
+    for l in ast.walk(fn):
+        if isinstance(l, ast.For) and any(isinstance(c, ast.Call) and isinstance(c.func, ast.Attribute) and c.func.attr == "mergelast" for c in ast.walk(l)):
+            loops.append(l)
+    loops = [l for l in loops if not any(l2 is not l and any(x is l2 for x in ast.walk(l)) for l2 in loops)]
+    R.shape(len(loops) == 1, "C12.R6", PS, "peaksearch", "the loop over the thresholds that calls mergelast()")
+    loop = loops[0]
+    thr = [a.arg for a in fn.args.args]
+    R.shape(src(loop.iter) in thr or (isinstance(loop.iter, ast.Call) and src(loop.iter.func) in ("list", "sorted", "tuple") and src(loop.iter.args[0]) in thr),
+            "C12.R6", PS, "peaksearch", "a loop over the 'thresholds' argument itself (found %s)" % src(loop.iter)[:50])
+    # early exits that belong to this loop
+
+    def exits(stmts, inner):
+        out = []
+        for st in stmts:
+            if isinstance(st, (ast.Break, ast.Continue)) and not inner:
+                out.append(st)
+            elif isinstance(st, ast.Return):
+                out.append(st)
+            elif isinstance(st, (ast.For, ast.While)):
+                out += exits(st.body, True) + exits(st.orelse, inner)
+            elif isinstance(st, ast.If):
+                out += exits(st.body, inner) + exits(st.orelse, inner)
+            elif isinstance(st, (ast.With,)):
+                out += exits(st.body, inner)
+            elif isinstance(st, ast.Try):
+                out += exits(st.body, inner) + exits(st.orelse, inner) + exits(st.finalbody, inner)
+                for h in st.handlers:
+                    out += exits(h.body, inner)
+        return out
+    ex = exits(loop.body, False)
+    cfg = pyfacts.PyCFG(fn)
+    head = cfg.of[id(loop)]
+    calls = {}
+    for nm in ("peaksearch", "mergelast"):
+        cs = [c for st in loop.body for c in ast.walk(st) if isinstance(c, ast.Call) and isinstance(c.func, ast.Attribute) and c.func.attr == nm]
+        R.shape(len(cs) == 1, "C12.R6", PS, "peaksearch", "one call of .%s() in the threshold loop" % nm)
+        calls[nm] = cs[0]
+    recv = set(pyfacts.resolved_src(fn, c.func.value, 2) for c in calls.values())
+    R.check(len(recv) == 1, "C12.R6", PS, calls["mergelast"].lineno, "peaksearch", "peaksearch and mergelast on the same label image (%s)" % sorted(recv),
+            "the frame is searched in one label image and merged in another")
+    for e in ex:
+        kind = type(e).__name__.lower()
+        if isinstance(e, ast.Continue):
+            # a continue after mergelast is harmless; before it a label image misses its swap
+            after = cfg.node_of(e) is not None and cfg.node_of(pyfacts.containing_stmt(calls["mergelast"])) is not None and \
+                cfg.dominates(cfg.node_of(pyfacts.containing_stmt(calls["mergelast"])), cfg.node_of(e))
+            if after:
+                continue
+        g = cfg.guards(cfg.node_of(e)) if cfg.node_of(e) is not None else []
+        R.check(False, "C12.R6", PS, e.lineno, "peaksearch", "%s in the loop over the thresholds%s" % (kind, (" when " + " and ".join(
+            ("%s" if pol else "not (%s)") % src(t) for t, pol in g[-2:])) if g else ""),
+            "the label images of the remaining thresholds are not given this frame: their 'previous frame' buffers (lastbl / lastres) keep an "
+            "older frame, so the next frame is merged with a frame that is not adjacent to it (peaks joined across a gap, and the peaks of "
+            "the skipped frame never merged or written at the right time)")
+    # both calls on every path of an iteration: removing the call's node must cut every path from the loop head back to itself / out
+    import networkx as nx
+    for nm, c in calls.items():
+        node = cfg.node_of(pyfacts.containing_stmt(c))
+        R.shape(node is not None, "C12.R6", PS, "peaksearch", "the statement of the .%s() call" % nm)
+        h = cfg.g.copy()
+        h.remove_node(node.id)
+        body_entry = [s_ for s_ in cfg.g.successors(head.id) if cfg.of.get(id(loop.body[0])) is not None and
+                      (s_ == cfg.of[id(loop.body[0])].id or s_ in nx.ancestors(cfg.g, node.id))]
+        skip = any(s_ in h and head.id in nx.descendants(h, s_) | {s_} for s_ in body_entry if s_ != node.id) and not any(
+            isinstance(e, (ast.Break, ast.Return)) for e in ex)
+        # paths through raise are not normal completion of the iteration
+        R.check(not skip, "C12.R6", PS, c.lineno, "peaksearch", ".%s() on every path of an iteration" % nm,
+                "an iteration can complete without calling %s: that label image does not see this frame" % nm)
+    pn, mn = [cfg.node_of(pyfacts.containing_stmt(calls[k])) for k in ("peaksearch", "mergelast")]
+    R.check(cfg.dominates(pn, mn), "C12.R6", PS, calls["mergelast"].lineno, "peaksearch", "peaksearch before mergelast",
+            "mergelast() runs before the frame has been searched")
